@@ -3,7 +3,7 @@
     execution algorithm ([exec_spec]) and of C01's model of the synchronous executor. *)
 From Coq Require Import List NArith ZArith Bool Lia.
 From ApiFu Require Import Base.Sexp Fut.Plan Fut.Future Fut.ExecAsync Fut.ExecSync Fut.Denote Fut.FutSpec
-     Fut.AsyncRun Fut.FutProofs Fut.BridgeC01 Fut.BridgeProofs Fut.BridgeNulls.
+     Fut.AsyncRun Fut.FutProofs Fut.BridgeC01 Fut.BridgeProofs Fut.BridgeNulls Fut.BridgeCands.
 From ApiFu Require Exe.ExecData Exe.ExecSpec Exe.ExecModel Exe.ExecHyps Exe.ExecProofs.
 Import ListNotations.
 
@@ -45,5 +45,28 @@ Proof.
   destruct (run_conforms md sigma fuelr jfuel root Fa Hf Hj) as (r & Er & C & _).
   exists r. split; auto. split; [|apply (cf_nulls _ _ _ C)].
   rewrite (bridge_null_paths code S Doc E fuel W). f_equal.
+  unfold same_outcomes in Same. rewrite <- (strip_visible root), Same. symmetry. apply strip_visible.
+Qed.
+
+(** data, failure-nulls and their candidates together: the response of every schedule against the
+    reference of the GraphQL algorithm (source locations erased on C01's side, error kinds on this
+    side, leaf values through [code]) *)
+Theorem schedule_yields_reference_response
+  (code : ExecData.json -> Z) S Doc E fuel n W d errs md root sigma fuelr jfuel :
+  ExecHyps.type_names_okb S = true -> ExecHyps.doc_positions_okb Doc = true ->
+  ExecSpec.doc_ok S Doc E fuel n = true ->
+  ExecModel.run ExecModel.fixed S Doc E fuel W = ExecModel.Done d errs ->
+  same_outcomes root (plan_of code S Doc E fuel W) ->
+  fair sigma -> count_async root <= fuelr -> resp_depth root < jfuel ->
+  exists r, run fixed_flags sigma md fuelr jfuel root = Done r /\
+            r_data r = tr_data code d /\
+            null_sites (ExecSpec.failure_nulls (ExecSpec.exec_spec S Doc E fuel W)) = plan_sites (visible_nulls root) /\
+            conforms root (r_data r) (r_errors r).
+Proof.
+  intros Hn Hp Hd Hr Same Fa Hf Hj.
+  destruct (schedule_yields_reference_data code S Doc E fuel n W d errs md root sigma fuelr jfuel
+              Hn Hp Hd Hr Same Fa Hf Hj) as (r & Er & D1 & _ & C).
+  exists r. split; auto. split; auto. split; auto.
+  rewrite (bridge_candidates code S Doc E fuel n W Hd). f_equal.
   unfold same_outcomes in Same. rewrite <- (strip_visible root), Same. symmetry. apply strip_visible.
 Qed.
